@@ -7,7 +7,12 @@ from props import smr_common as S
 def run(ctx):
     # Tier B: HP.tla (attach with record reuse, protect, retire, classic/in-place scan, help_scan, detach, destructor)
     vlib.model_check_many(ctx, [dict(module_rel="smr/HPMC.tla", cfg_rel="smr/HP_q.cfg" if ctx.quick() else "smr/HP_t.cfg", workers=8, timeout=3000),
-                                dict(module_rel="smr/HPMC.tla", cfg_rel="smr/HP_bad_scan.cfg", workers=4, expect_violation="Assert")], par=2)
+                                dict(module_rel="smr/HPMC.tla", cfg_rel="smr/HP_bad_scan.cfg", workers=4, expect_violation="Assert"),
+                                # DHP.tla (retired array of blocks, extension guard blocks, record reuse, help_scan adoption, destructor); refuted: seeded change C03
+                                # (empty() without the list-head test -> leak) and the defect repaired by 5021641 (stale list_tail_ -> write past the block)
+                                dict(module_rel="smr/DHPMC.tla", cfg_rel="smr/DHP_q.cfg" if ctx.quick() else "smr/DHP_t.cfg", workers=4, timeout=3000),
+                                dict(module_rel="smr/DHPMC.tla", cfg_rel="smr/DHP_bad_EmptyNoHead.cfg", workers=3, expect_violation="NoLeak"),
+                                dict(module_rel="smr/DHPMC.tla", cfg_rel="smr/DHP_bad_StaleTail.cfg", workers=3, expect_violation="NoOverflow")], par=5)
     n = 1 if ctx.quick() else 6
     k1 = [v for v in S.HP_VARIANTS if "_k1" in v]
     k2 = [v for v in S.HP_VARIANTS if "_k1" not in v] + ["dhp_k4", "dhp_k2"]
